@@ -218,6 +218,44 @@ V_ENTRY(h_times, struct opnd a; struct opnd b;)
 	V_ASSERT(val(a) == va && val(b) == vb, "bintTimes: operands unchanged");
 }
 
+/* ---- a mod b (bintMod: |a| mod |b| with the sign of a; dispatch between the single-word Horner
+ *      routine bintModi and bintDivide).  xxModDouble (dword.c, double-word by word remainder) is
+ *      replaced by its contract below. ---- */
+#ifdef V_MOD
+ULong xxModDouble(ULong hi, ULong lo, ULong d)
+{
+	V_ASSERT(d != 0, "xxModDouble: divisor non-zero");
+	V_ASSERT(hi < d, "xxModDouble: high word below the divisor (quotient fits one word)");
+	if (hi == 0) return lo % d;
+	return (ULong) (((((u128) hi) << 64) | lo) % d);
+}
+
+V_ENTRY(h_mod, struct opnd a; struct opnd b;)
+{
+	struct bint SA, SB; BInt a = mk(KA, &in->a, &SA), b = mk(KB, &in->b, &SB), r;
+	s128 va = val(a), vb = val(b);
+	u128 ma = va < 0 ? -(u128) va : (u128) va, mb = vb < 0 ? -(u128) vb : (u128) vb, mr, want;
+	V_ASSUME(vb != 0);
+#ifdef V_MOD_LEN64
+	V_ASSUME(mb >> 63 != 0);              /* modulus of exactly 64 bits */
+#endif
+#ifdef V_MOD_LEN63
+	V_ASSUME(mb >> 63 == 0);              /* modulus of at most 63 bits */
+#endif
+	r = bintMod(a, b);
+	mr = IsImmed(r) ? (BIntToInt(r) < 0 ? -(u128) BIntToInt(r) : (u128) BIntToInt(r)) : mag(r);
+#if KA <= 2 && KB <= 2
+	want = (u128) ((ULong) ma % (ULong) mb);      /* both magnitudes below 2^64 */
+#else
+	want = ma % mb;
+#endif
+	V_ASSERT(mr == want, "bintMod: |a mod b| == |a| mod |b|");
+	V_ASSERT(mr == 0 || ((bintIsNeg(r) != 0) == (va < 0)), "bintMod: result carries the sign of the dividend");
+	V_ASSERT(normal(r), "bintMod: result normalised");
+	V_ASSERT(val(b) == vb, "bintMod: modulus unchanged");
+}
+#endif
+
 /* ---- length, bit ---- */
 V_ENTRY(h_lenbit, struct opnd a; unsigned long ix;)
 {
